@@ -17,6 +17,17 @@ the declarations given to the model carry the namespace read off the *source tex
 paths; every path the implementation writes twice with different contents must be a collision the
 model predicts (with its cause), and conversely.
 
+Families of inline function types (`family_case`): one base signature and all its variants in *one* signature component
+(`throws` clause: none / bare / one / another / two error domains; `function +t` targets; a parameter type; `?` on a
+parameter, the returned type or a generic argument; returned type or none; number of parameters; parameter names; the
+signature of a function-typed parameter; spellings that the `_` separator of the synthetic name confuses), laid out in one
+interface, in several interfaces of one namespace, and spread over sibling / enclosing namespaces. The *written* signatures
+go to the model (`c15.anon`, Lean `anonName` = the name `Parser.visitFunction` builds): the name the parser gave every
+inline function type must be the model's, and an overwrite between two inline function types of one namespace is keyed by
+`anonCause`: `overwrite:duplicate-declaration` (same type, other parameter names), `overwrite:anonymous:<what the pinned
+name leaves out>` (Dom clauses, findings) — or `overwrite:anonymous-signature:<component>` when the two types must have
+different names (theorems `anonName_encodes_throws`, `anonName_bare_throws_distinct`): never a finding.
+
 Specification on the implementation's observation (`c15.spec`, Lean): no path with two different
 digests in the log of one run. The shape signature of a failure is `overwrite:<cause>` as classified by
 the model (`namespace-dropped` carries the generator).
@@ -49,6 +60,16 @@ THEOREMS = [
     "Pydjinni.GenC.base_suffix_collides",
     "Pydjinni.GenC.objc_concatenation_collides",
     "Pydjinni.GenC.anonymous_function_namespace_dropped",
+    "Pydjinni.GenC.splitU_joinL",
+    "Pydjinni.GenC.joinL_flat_injective",
+    "Pydjinni.GenC.anonName_encodes_throws",
+    "Pydjinni.GenC.anonName_throws_injective",
+    "Pydjinni.GenC.anonName_bare_throws_distinct",
+    "Pydjinni.GenC.anonName_ignores_parameter_names",
+    "Pydjinni.GenC.anonName_ignores_optional",
+    "Pydjinni.GenC.anonName_optional_dropped",
+    "Pydjinni.GenC.anonName_join_ambiguous",
+    "Pydjinni.GenC.anonName_nested_function_dropped",
     "Pydjinni.GenC.no_collisions_nodup",
     "Pydjinni.GenC.nodup_noOverwrite",
     "Pydjinni.SysC.write_unconditional",
@@ -119,6 +140,251 @@ def corpus_case(c):
         {"stress": "corpus:" + c["name"], "naming": c["naming"], "targets": list(sysgen.TARGETS), "features": []}
 
 
+# -------------------------------------------------------------------------------------------------
+# families of inline function types: a base signature and its variants in exactly one component
+# -------------------------------------------------------------------------------------------------
+
+# helper declarations a family program starts with (top level: visible from every namespace under the bare name; only those the
+# signatures of the program mention). `void` and `java` (family `join`) are legal type names under the default identifier styles
+# that are also a literal part / a target key of the synthetic name.
+HELPERS = {**{n: n + " = error { c; }" for n in ("e1", "e2", "e", "x", "e_x")},
+           **{n: n + " = record { v: i32; }" for n in ("foo", "bar", "foo_bar", "void", "java")}, "col": "col = enum { red; green; }"}
+
+
+def mentioned(t, out: set):
+    if isinstance(t, dict) and "n" in t:
+        out.add(t["n"])
+        for a in t["args"]:
+            mentioned(a, out)
+
+
+FAMILY_DIMS = ["throws", "targets", "parameter-types", "optional", "return", "arity", "parameter-names", "nested-function", "join"]
+FAMILY_LAYOUTS = ["one-interface", "interfaces", "spread", "spread-deep"]
+
+
+def T(n, *args, opt=False):
+    return {"n": n, "opt": opt, "args": list(args)}
+
+
+def spell_type(t) -> str:
+    if "fn" in t:
+        return t["fn"]
+    return t["n"] + ("<" + ", ".join(spell_type(a) for a in t["args"]) + ">" if t["args"] else "") + ("?" if t["opt"] else "")
+
+
+def spell_sig(s) -> str:
+    out = ("function " + " ".join("+" + t for t in s["targets"]) + " " if s["targets"] else "")
+    out += "(" + ", ".join(f"{p['name']}: {spell_type(p['type'])}" for p in s["params"]) + ")"
+    if s["throws"] is not None:
+        out += " throws" + (" " + ", ".join(s["throws"]) if s["throws"] else "")
+    if s["ret"] is not None:
+        out += " -> " + spell_type(s["ret"])
+    return out
+
+
+def sig(params=(), ret=None, throws=None, targets=()):
+    return {"targets": list(targets), "params": [{"name": n, "type": t} for n, t in params], "ret": ret, "throws": throws}
+
+
+def base_sig(r: random.Random):
+    pool = [T("i32"), T("string"), T("bool"), T("f64"), T("list", T("i32")), T("map", T("string"), T("i64")), T("foo"), T("col"),
+            T("list", T("foo")), T("set", T("string"))]
+    params = [(f"{r.choice('abpqxy')}{i}", r.choice(pool)) for i in range(r.choice([0, 1, 1, 2]))]
+    return sig(params, r.choice([None, T("bool"), T("i32"), T("foo"), T("list", T("string"))]),
+               r.choice([None, None, None, [], ["e1"]]))
+
+
+def family(r: random.Random, dim: str) -> list[dict]:
+    """the members of one family: pairwise different *types* (except `parameter-names`) that differ in the component `dim` only"""
+    import copy
+    b = base_sig(r)
+    if dim in ("parameter-types", "optional", "parameter-names") and not b["params"]:
+        b["params"] = [{"name": "a0", "type": T(r.choice(["i32", "string", "foo"]))}]
+
+    def var(**kw):
+        v = copy.deepcopy(b)
+        v.update(copy.deepcopy(kw))
+        return v
+    if dim == "throws":
+        return [var(throws=t) for t in (None, [], ["e1"], ["e2"], ["e1", "e2"], ["e2", "e1"])]
+    if dim == "targets":
+        return [var(targets=t) for t in ([], ["cpp"], ["java"], ["cpp", "java"], ["java", "cpp"], ["objc", "cppcli"])]
+    if dim == "return":
+        rets = [None, T("bool"), T("i32"), T("string"), T("list", T("i32")), T("list", T("list", T("i32")))]
+        return [var(ret=t) for t in rets]
+    if dim == "arity":
+        out, ps = [], []
+        for i in range(4):
+            out.append(var(params=list(ps)))
+            ps.append({"name": f"a{i}", "type": T("i32")})
+        return out
+    k = r.randrange(len(b["params"])) if b["params"] else 0
+    if dim == "parameter-types":
+        out = []
+        for t in (T("i32"), T("i64"), T("string"), T("list", T("i32")), T("list", T("i64")), T("map", T("i32"), T("list", T("i32"))),
+                  T("map", T("list", T("i32")), T("i32"))):
+            ps = copy.deepcopy(b["params"])
+            ps[k]["type"] = t
+            out.append(var(params=ps))
+        return out
+    if dim == "parameter-names":
+        out = []
+        for names in ("abc", "xyz", "pqr"):
+            ps = copy.deepcopy(b["params"])
+            for i, p in enumerate(ps):
+                p["name"] = names[i % 3] + str(i)
+            out.append(var(params=ps))
+        return out
+    if dim == "optional":
+        # `?` on one parameter, on the returned type, on a generic argument
+        ps = copy.deepcopy(b["params"])
+        ps[k]["type"] = T("list", T("i32"))
+        ret = b["ret"] or T("string")
+        out = [var(params=ps, ret=ret)]
+        for where in ("param", "arg", "ret", "all"):
+            q, rt = copy.deepcopy(ps), copy.deepcopy(ret)
+            if where in ("param", "all"):
+                q[k]["type"]["opt"] = True
+            if where in ("arg", "all"):
+                q[k]["type"]["args"][0]["opt"] = True
+            if where in ("ret", "all"):
+                rt["opt"] = True
+            out.append(var(params=q, ret=rt))
+        return out
+    if dim == "nested-function":
+        inner = ["(v: i32)", "(v: string)", "() -> bool", "(v: i32) throws", "(w: i32)"]
+        return [var(params=[{"name": "f", "type": {"fn": x}}] + copy.deepcopy(b["params"])) for x in inner]
+    if dim == "join":
+        # spellings the `_` separator of the name cannot tell apart — and neighbours it can
+        return r.choice([
+            [sig([("a", T("foo")), ("b", T("bar"))]), sig([("a", T("foo_bar"))]), sig([("a", T("bar")), ("b", T("foo"))])],
+            [sig([("a", T("i32"))], ret=T("void")), sig([("a", T("i32"))]), sig([("a", T("i32")), ("b", T("void"))])],
+            [sig([("a", T("java"))], targets=["cpp"]), sig([], targets=["cpp", "java"]), sig([("a", T("java"))], targets=["java"])],
+            [sig([("a", T("i32"))], throws=["e_x"]), sig([("a", T("i32"))], throws=["e", "x"]), sig([("a", T("i32"))], throws=["x", "e"])],
+        ])
+    raise ValueError(dim)
+
+
+def write_family_program(members, places, home=(), tg=" +cpp", one_interface=False, as_return=()):
+    """members [(component, signature)], places [namespace tuple] -> (text, [{line, ns, sig, dim}]): one block per namespace
+    (`home` first), every inline function type on a line of its own, as a callback parameter or (`as_return`) a returned type"""
+    names: set = set()
+    for _, m in members:
+        names.update(m["throws"] or ())
+        for t in [p["type"] for p in m["params"]] + [m["ret"]]:
+            mentioned(t, names)
+    lines = [HELPERS[n] for n in HELPERS if n in names]
+    sigs = []
+    order = sorted(range(len(members)), key=lambda i: (places[i] != home, places[i]))
+    cur, open_iface, n_if, in_iface = None, False, 0, 0
+
+    def close():
+        nonlocal open_iface
+        if open_iface:
+            lines.append("  }")
+            open_iface = False
+    for i in order:
+        ns = places[i]
+        if ns != cur:
+            close()
+            if cur:
+                lines.append("}")
+            if ns:
+                lines.append(f"namespace {'.'.join(ns)} {{")
+            cur = ns
+        if not open_iface or (not one_interface and in_iface >= 3):
+            close()
+            in_iface = 0
+            lines.append(f"  i{n_if} = interface{tg} {{")
+            n_if += 1
+            open_iface = True
+        in_iface += 1
+        d, m = members[i]
+        if i in as_return and d != "nested-function":
+            lines.append(f"    m{i}() -> {spell_sig(m)};")
+        else:
+            lines.append(f"    m{i}(cb: {spell_sig(m)});")
+        sigs.append({"line": len(lines), "ns": list(ns), "sig": m, "dim": d})
+    close()
+    if cur:
+        lines.append("}")
+    return "\n".join(lines) + "\n", sigs
+
+
+def family_program(r: random.Random, dims: list[str], layout: str):
+    members = []
+    for d in dims:
+        fam = family(r, d)
+        r.shuffle(fam)
+        members += [(d, m) for m in fam[: r.choice([3, 4, 6])]]
+    home = r.choice([(), ("net",), ("core", "util")])
+    if layout in ("one-interface", "interfaces"):
+        places = [home] * len(members)
+    else:
+        others = [home + ("inner",), ("side",), home[:-1]] if layout == "spread-deep" else [("side",), home + ("inner",)]
+        places = [home if i % 3 != 2 else others[(i // 3) % len(others)] for i in range(len(members))]
+    tg = r.choice([" +cpp", " +cpp", " +java +objc +cppcli", ""])
+    return write_family_program(members, places, home, tg, layout == "one-interface", {i for i in range(len(members)) if r.random() < 0.2})
+
+
+_I32, _BOOL = T("i32"), T("bool")
+# minimised families, run first: the three `throws` clauses in one namespace (theorem `anonName_throws_injective`), and one
+# witness per Dom clause of the pinned name
+FAMILY_CORPUS = [
+    {"name": "cannot throw / bare throws / throws e1 in one namespace", "ns": ("net",),
+     "members": [("throws", sig([("x", _I32)], _BOOL)), ("throws", sig([("x", _I32)], _BOOL, throws=[])), ("throws", sig([("x", _I32)], _BOOL, throws=["e1"]))]},
+    {"name": "function +cpp / function +java / no target list", "ns": (),
+     "members": [("targets", sig([("x", _I32)], targets=["cpp"])), ("targets", sig([("x", _I32)], targets=["java"])), ("targets", sig([("x", _I32)]))]},
+    {"name": "returns bool / returns nothing / one more parameter", "ns": ("net",),
+     "members": [("return", sig([("x", _I32)], _BOOL)), ("return", sig([("x", _I32)])), ("arity", sig([("x", _I32), ("y", _BOOL)]))]},
+    {"name": "optional parameter", "ns": ("net",),
+     "members": [("optional", sig([("x", _I32)], _BOOL)), ("optional", sig([("x", T("i32", opt=True))], _BOOL))]},
+    {"name": "function-typed parameter", "ns": (),
+     "members": [("nested-function", sig([("f", {"fn": "(v: i32)"})])), ("nested-function", sig([("f", {"fn": "(v: string)"})]))]},
+    {"name": "foo, bar / foo_bar", "ns": ("net",),
+     "members": [("join", sig([("a", T("foo")), ("b", T("bar"))])), ("join", sig([("a", T("foo_bar"))]))]},
+]
+
+
+def family_corpus_case(c):
+    r = random.Random("corpus/c15/family/" + c["name"])
+    text, sigs = write_family_program(c["members"], [c["ns"]] * len(c["members"]), c["ns"], " +cpp", True)
+    opts = sysgen.make_options(r, sysgen.TARGETS, out_kind="rel", naming="default", extras=False)
+    job = job_of({"proj/main.pydjinni": text}, "proj/main.pydjinni", opts, list(sysgen.TARGETS))
+    job["sigs"] = sigs
+    return job, {"stress": "corpus:family:" + c["name"], "naming": "default", "targets": list(sysgen.TARGETS), "features": []}
+
+
+def family_case(seed_key: str, i: int):
+    r = random.Random(seed_key)
+    # every component is due once per len(FAMILY_DIMS) cases; every third case mixes in a second one
+    dims = [FAMILY_DIMS[i % len(FAMILY_DIMS)]]
+    if i % 3 == 2:
+        dims.append(r.choice([d for d in FAMILY_DIMS if d != dims[0]]))
+    layout = FAMILY_LAYOUTS[(i + i // len(FAMILY_DIMS)) % len(FAMILY_LAYOUTS)]
+    text, sigs = family_program(r, dims, layout)
+    naming = "default" if i % 3 or "join" in dims else "random"
+    opts = sysgen.make_options(r, sysgen.TARGETS, out_kind="rel", naming=naming, extras=False)
+    opts["generate"]["support_lib_sources"] = False      # (the copies of the support library are the bulk of a run's writes)
+    job = job_of({"proj/main.pydjinni": text}, "proj/main.pydjinni", opts, list(sysgen.TARGETS))
+    job["sigs"] = sigs
+    return job, {"stress": "family:" + "+".join(dims) + ":" + layout, "naming": naming, "targets": list(sysgen.TARGETS), "features": []}
+
+
+def match_sigs(job, defs):
+    """inline function types of the family stream: declaration index -> index into job["sigs"] (by source line; the outermost
+    function type of a line is the member, function-typed parameters inside it are not described)"""
+    by_line = {}
+    for i, d in enumerate(defs):
+        if d.get("anonymous") and d["kind"] == "function" and (d.get("src") or {}).get("line") is not None:
+            by_line.setdefault(d["src"]["line"], []).append((d["src"]["col"], i))
+    out = {}
+    for k, s in enumerate(job.get("sigs", ())):
+        if s["line"] in by_line:
+            out[min(by_line[s["line"]])[1]] = k
+    return out
+
+
 def source_decls(job, defs):
     """The declarations the run is *about*: what the parser handed to the generators, with the namespace of each
     declaration read off the source text at the declaration's position (block structure only, `sysgen.namespace_scopes`).
@@ -144,9 +410,13 @@ def requests(job, meta, obs, tables):
     parse = obs["calls"][0]
     log = [[e[1], e[2]] for c in obs["calls"] for e in c["log"]]
     sdefs, _ = source_decls(job, parse.get("defs", []))
-    return [{"op": "c15.spec", "log": log},
-            {"op": "c15.names", "gens": obs["cfg"][0], "targets": meta["targets"], "defs": sdefs,
-             "support": tables["support"], "supportLib": obs["meta"][0]["supportLib"]}]
+    out = [{"op": "c15.spec", "log": log},
+           {"op": "c15.names", "gens": obs["cfg"][0], "targets": meta["targets"], "defs": sdefs,
+            "support": tables["support"], "supportLib": obs["meta"][0]["supportLib"]}]
+    if job.get("sigs"):
+        # the written signatures of the inline function types; the target keys in the order the parser is given them
+        out.append({"op": "c15.anon", "keys": list(tables["targets"]), "sigs": [x["sig"] for x in job["sigs"]]})
+    return out
 
 
 def evaluate(ctx, job, meta, obs, tables, answers=None):
@@ -154,10 +424,14 @@ def evaluate(ctx, job, meta, obs, tables, answers=None):
     log = [[e[1], e[2]] for c in obs["calls"] for e in c["log"]]
     pdefs = parse.get("defs", [])
     sdefs, moved = source_decls(job, pdefs)
-    s, m = answers if answers is not None else ctx.driver.batch(requests(job, meta, obs, tables))
-    for a in (s, m):
+    answers = answers if answers is not None else ctx.driver.batch(requests(job, meta, obs, tables))
+    for a in answers:
         if "error" in a:
             raise RuntimeError(f"driver error {a}")
+    s, m = answers[0], answers[1]
+    anon = answers[2] if len(answers) > 2 else None
+    sig_of = match_sigs(job, pdefs) if anon else {}
+    pair = {(q["i"], q["j"]): q for q in anon["pairs"]} if anon else {}
     fails = []
     for c, rec in zip(job["calls"], obs["calls"]):
         if not rec["ok"] and not rec.get("skipped"):
@@ -178,14 +452,39 @@ def evaluate(ctx, job, meta, obs, tables, answers=None):
         key = f"overwrite:{c['g']}:namespace-dropped" if c["cause"] == "namespace-dropped" else \
               (f"overwrite:{c['g']}:{c['cause']}" if c["cause"] == "concatenation" else f"overwrite:{c['cause']}")
         defs = sdefs
-        fails.append({"key": key, "detail": f"{p} receives the files of {qn(defs, c['first'])} and {qn(defs, c['second'])} ({c['g']}, {c['kind']})",
-                      "path": p, "collision": c})
+        detail = f"{p} receives the files of {qn(defs, c['first'])} and {qn(defs, c['second'])} ({c['g']}, {c['kind']})"
+        extra = {}
+        # two inline function types of one namespace under one name: the same type (written with other parameter names), a
+        # type the pinned name cannot tell apart (Dom clause) — or two types whose names must differ
+        for c2 in cs:
+            if c2["cause"] == "duplicate-declaration" and c2["first"] in sig_of and c2["second"] in sig_of:
+                a, b = sorted((sig_of[c2["first"]], sig_of[c2["second"]]))
+                q = pair.get((a, b))
+                if q and q["cause"] != "duplicate-declaration":
+                    sa, sb = job["sigs"][a], job["sigs"][b]
+                    key = "overwrite:" + q["cause"]
+                    detail = (f"{p} receives the files of the inline function types `{spell_sig(sa['sig'])}` (line {sa['line']}) and "
+                              f"`{spell_sig(sb['sig'])}` (line {sb['line']}) of namespace '{'.'.join(sa['ns'])}': both are named "
+                              f"{pdefs[c2['first']]['name']} ({c2['g']}, {c2['kind']}); they differ in: {', '.join(q['diff'])}")
+                    extra = {"signatures": [spell_sig(sa["sig"]), spell_sig(sb["sig"])], "differ_in": q["diff"], "model_names_equal": q["sameName"]}
+                    c = c2
+                    break
+        fails.append({"key": key, "detail": detail, "path": p, "collision": c, **extra})
     # correspondence
     diffs = []
     ipaths = sorted(e[0] for e in log)
     if ipaths != sorted(m["writes"]):
         diffs.append({"what": "written paths (multiset)", "only_impl": sorted(set(ipaths) - set(m["writes"]))[:5],
                       "only_model": sorted(set(m["writes"]) - set(ipaths))[:5], "n_impl": len(ipaths), "n_model": len(m["writes"])})
+    if anon:
+        # the synthetic name the parser built vs `anonName` of the written signature
+        wrong = [{"line": job["sigs"][k]["line"], "signature": spell_sig(job["sigs"][k]["sig"]), "impl": pdefs[i]["name"], "model": anon["names"][k]}
+                 for i, k in sorted(sig_of.items()) if pdefs[i]["name"] != anon["names"][k]]
+        if wrong:
+            diffs.append({"what": "synthetic name of an inline function type: parser vs anonName of the written signature", "first": wrong[:4], "n": len(wrong)})
+        if parse.get("ok", True) and len(sig_of) != len(job["sigs"]):
+            diffs.append({"what": "inline function types of the program that the parser did not hand to the generators",
+                          "lines": sorted(set(x["line"] for x in job["sigs"]) - set(pdefs[i]["src"]["line"] for i in sig_of))[:6]})
     if moved:
         diffs.append({"what": "namespace of a declaration: source text vs what the generators were given",
                       "decls": [{"source": qn(sdefs, i), "given": qn(pdefs, i), "at": pdefs[i]["src"]} for i in moved[:5]]})
@@ -203,20 +502,25 @@ def qn(defs, i):
 
 def run(ctx):
     ctx.coverage["rule"] = ("one case = program x naming configuration x target list, whole run in one process; distinct = distinct "
-                            "(stress kind, naming class, target set, multiset of predicted collision causes per generator); "
+                            "(stress kind — for the family stream: varied signature component(s) and layout —, naming class, target set, multiset of predicted collision causes per generator); "
                             "non-trivial = the model predicts at least one collision or the program has same-named declarations")
     tables = sysgen.live_tables(ctx)
-    cases = [corpus_case(c) for c in CORPUS]
+    cases = [corpus_case(c) for c in CORPUS] + [family_corpus_case(c) for c in FAMILY_CORPUS]
     for i in range(ctx.n(140, 2000)):
         cases.append(make_case(f"{ctx.seed}/c15/{i}"))
+    for i in range(ctx.n(36, 360)):
+        cases.append(family_case(f"{ctx.seed}/c15/family/{i}", i))
     results = sysgen.run_jobs(ctx, [c[0] for c in cases], tag="c15")
     breaks = []
     for obs in results:
         if "fatal" in obs:
             raise RuntimeError(f"worker failed: {obs['fatal']}")
-    answers = ctx.driver.batch([q for (job, meta), obs in zip(cases, results) for q in requests(job, meta, obs, tables)])
+    reqs = [requests(job, meta, obs, tables) for (job, meta), obs in zip(cases, results)]
+    answers = ctx.driver.batch([q for qs in reqs for q in qs])
+    at = 0
     for k, ((job, meta), obs) in enumerate(zip(cases, results)):
-        s, m, fails, diffs, predicted = evaluate(ctx, job, meta, obs, tables, answers[2 * k: 2 * k + 2])
+        s, m, fails, diffs, predicted = evaluate(ctx, job, meta, obs, tables, answers[at: at + len(reqs[k])])
+        at += len(reqs[k])
         causes = sorted(set(f"{c['g']}:{c['cause']}" for c in m["collisions"]))
         ctx.count(key=json.dumps([meta["stress"], meta["naming"], sorted(meta["targets"]), causes]), nontrivial=bool(m["collisions"]),
                   sample={"stress": meta["stress"], "naming": meta["naming"], "collisions": causes[:6], "overwritten": s["overwritten"][:3]})
@@ -227,6 +531,11 @@ def run(ctx):
         ctx.stat("runs_with_overwrite", 1 if s["overwritten"] else 0)
         ctx.stat("paths_overwritten", len(s["overwritten"]))
         ctx.stat("files_written", len(m["writes"]))
+        if job.get("sigs"):
+            ctx.stat("inline_function_types_with_written_signature", len(job["sigs"]))
+            for f in fails:
+                if "differ_in" in f:
+                    ctx.stat("anonymous " + f["key"].split(":", 1)[1])
         replay = {"job": job, "meta": meta}
         for f in fails:
             ctx.report(f["key"], f["detail"], {**replay, "failure": f})
@@ -239,6 +548,9 @@ def run(ctx):
     elif breaks:
         ctx.stats["correspondence_first"] = json.dumps(breaks[0]["differences"][0])[:400]
     ctx.assumptions += [
+        "families of inline function types: base signatures of 0-2 parameters over primitives, list/set/map, a record, an enum; one varied component per family (" + ", ".join(FAMILY_DIMS) +
+        "), every component due once per " + str(len(FAMILY_DIMS)) + " cases, a second family in every third program; helper types are declared at the top level and referred to by their "
+        "bare names (a dotted reference would put a '.' into the synthetic name); the written signature of a member is matched to the parser's declaration by its source line",
         "one run = one API object, one parse, each target generated once; output directories of different generators are distinct",
         "contents are compared by sha256 of the bytes on disk right after each write (hook)",
     ]
